@@ -460,3 +460,71 @@ func TestVerifC18UsedMessageReceivers(t *testing.T) {
 		}
 	}
 }
+
+// TestVerifC18UpdateEncodedAgain: one Update VALUE encoded more than once, its exported fields changed in
+// between (events trimmed at the front - as callers do before sending only what a client lacks -, or
+// replaced by another window under the same signed accumulator): every encoding must be that of the
+// value's current content.
+func TestVerifC18UpdateEncodedAgain(t *testing.T) {
+	r := vkit.Start(t, "C18", "update-encoded-again", 60*time.Second, 300*time.Second)
+	defer r.Finish()
+	r.Rule = "history of 5 revocations; Update [a..5] encoded, then its Events set to [b..5] for every b != a (longer and shorter), encoded again; JSON and CBOR; non-trivial = distinct (a, b, encoding); oracle: the second encoding equals the encoding of a fresh Update holding the same accumulator and events [b..5], and decodes to b..5"
+	if r.Shard != 0 {
+		return
+	}
+	k := vfK("toyA")
+	w := c11NewWorld(k)
+	for i := 0; i < 5; i++ {
+		w.revoke(vfRevPrime(70 + i))
+	}
+	last := w.last()
+	type codec struct {
+		name string
+		enc  func(any) ([]byte, error)
+		dec  func([]byte, any) error
+	}
+	codecs := []codec{
+		{"json", json.Marshal, json.Unmarshal},
+		{"cbor", func(v any) ([]byte, error) { return cbor.Marshal(v, cbor.EncOptions{}) }, func(b []byte, v any) error { return cbor.Unmarshal(b, v) }},
+	}
+	evs := func(from int) []*revocation.Event {
+		out := []*revocation.Event{}
+		for _, e := range w.events[from:] {
+			c := *e
+			out = append(out, &c)
+		}
+		return out
+	}
+	for _, cd := range codecs {
+		for a := 1; a <= last+1; a++ {
+			for b := 1; b <= last+1; b++ {
+				if a == b {
+					continue
+				}
+				r.Eval()
+				desc := fmt.Sprintf("%s: Update [%d..%d] encoded, events set to [%d..%d], encoded again", cd.name, a, last, b, last)
+				r.Nontrivial(desc)
+				u := w.update(a)
+				if _, err := cd.enc(u); err != nil {
+					r.HarnessError("%v", err)
+					return
+				}
+				u.Events = evs(b)
+				second, err := cd.enc(u)
+				if err != nil {
+					r.Violate("C18|message-not-encodable|Update|"+cd.name, desc+": "+err.Error(), desc)
+					continue
+				}
+				fresh := &revocation.Update{SignedAccumulator: u.SignedAccumulator, Events: evs(b)}
+				want, _ := cd.enc(fresh)
+				var back revocation.Update
+				derr := cd.dec(second, &back)
+				same := bytes.Equal(second, want) && derr == nil && len(back.Events) == len(fresh.Events) && (len(back.Events) == 0 || back.Events[0].Index == fresh.Events[0].Index)
+				r.Outcome(fmt.Sprintf("update-encoded-again:%s:current-content=%v", cd.name, same))
+				if !same {
+					r.Violate("C18|encoding-not-of-the-current-content|Update|"+cd.name, fmt.Sprintf("%s: the second encoding differs from the encoding of a fresh value with the same fields (decodes to %d events, %d expected; %v)", desc, len(back.Events), len(fresh.Events), derr), desc)
+				}
+			}
+		}
+	}
+}
